@@ -30,6 +30,12 @@ struct Tl {
     track_n: Cell<usize>,
     track_overflow: Cell<bool>,
     track: std::cell::UnsafeCell<[(usize, usize); TRACK_SLOTS]>,
+    /// freed-block search: while `pat_on`, every block of at most 4096 bytes released on this thread is searched for the
+    /// 32-byte pattern; `pat_hits` counts the blocks that still contained it, `pat_size` is the size of the first such block
+    pat_on: Cell<bool>,
+    pat: Cell<[u8; 32]>,
+    pat_hits: Cell<usize>,
+    pat_size: Cell<usize>,
 }
 
 thread_local! {
@@ -39,6 +45,7 @@ thread_local! {
         watch_n: Cell::new(0), watch: Cell::new([0; WATCH_SLOTS]),
         ev_n: Cell::new(0), ev: Cell::new([WatchEvent{addr:0, bytes:[0;32]}; WATCH_SLOTS]),
         track_on: Cell::new(false), track_n: Cell::new(0), track_overflow: Cell::new(false), track: std::cell::UnsafeCell::new([(0, 0); TRACK_SLOTS]),
+        pat_on: Cell::new(false), pat: Cell::new([0; 32]), pat_hits: Cell::new(0), pat_size: Cell::new(0),
     } };
 }
 
@@ -152,6 +159,16 @@ fn on_alloc(size: usize) {
 fn on_dealloc(addr: usize, size: usize) {
     let _ = TL.try_with(|t| {
         t.live.set(t.live.get() - size as isize);
+        if t.pat_on.get() && size >= 32 && size <= 4096 {
+            let pat = t.pat.get();
+            let block = unsafe { std::slice::from_raw_parts(addr as *const u8, size) };
+            if block.windows(32).any(|w| w == pat) {
+                if t.pat_hits.get() == 0 {
+                    t.pat_size.set(size);
+                }
+                t.pat_hits.set(t.pat_hits.get() + 1);
+            }
+        }
         let n = t.watch_n.get();
         if n > 0 {
             let w = t.watch.get();
@@ -172,6 +189,22 @@ fn on_dealloc(addr: usize, size: usize) {
             }
         }
     });
+}
+
+/// Run `f` on this thread while every block it releases (<= 4096 bytes) is searched for `secret`; returns f's result, the
+/// number of released blocks that still held the secret, and the size of the first of them.
+pub fn freed_with_secret<T>(secret: &[u8; 32], f: impl FnOnce() -> T) -> (T, usize, usize) {
+    TL.with(|t| {
+        t.pat.set(*secret);
+        t.pat_hits.set(0);
+        t.pat_size.set(0);
+        t.pat_on.set(true);
+    });
+    let r = f();
+    TL.with(|t| {
+        t.pat_on.set(false);
+        (r, t.pat_hits.get(), t.pat_size.get())
+    })
 }
 
 /// Start a measurement window on this thread.
